@@ -215,6 +215,9 @@ func searchC11() {
 				continue
 			}
 			ts := timesFor(l0, y, m, d, 1)
+			if tier == "thorough" && len(ts) == 2 && di%2 != y%2 {
+				ts = ts[:0] // thorough tier: ordinary days every other day (term days always); the per-day checks still run
+			}
 			// directed: late rat hour today (sect 1) and early rat hour tomorrow (sect 2) give equal pillars
 			pairDay := di%4 < 2
 			if pairDay {
